@@ -114,14 +114,36 @@ _NP_CONVERTERS = {"asarray", "array", "asanyarray", "ascontiguousarray", "asfort
                   "astype", "require", "fromiter", "concatenate", "stack"}
 
 
-def validating_numpy_call(call: ast.Call) -> bool:
+def validating_numpy_call(call: ast.Call, params=None) -> bool:
     """NumPy routines that validate caller-supplied data and raise on it (ragged sequences, impossible dtypes, incompatible shapes):
-    may-raise wherever they are applied inside the engine's critical regions (Tensor._op between locking and the releasing handlers)."""
+    may-raise wherever they are applied, inside the engine's critical regions (Tensor._op between locking and the releasing handlers), to a
+    value the caller supplied raw -- a parameter, or an item / .get() of a parameter (op_kwargs["where"], input_vars[i]).  Conversions of
+    arrays the engine already holds (<tensor>.data, <tensor>.grad) are not treated as fallible."""
     d = dotted(call.func) or ""
     leaf = d.split(".")[-1] if d else (call.func.attr if isinstance(call.func, ast.Attribute) else "")
     if leaf not in _NP_CONVERTERS:
         return False
-    return d.split(".")[0] in ("np", "numpy") or (isinstance(call.func, ast.Attribute) and leaf in ("astype", "reshape"))
+    is_np = d.split(".")[0] in ("np", "numpy")
+    if not (is_np or (isinstance(call.func, ast.Attribute) and leaf in ("astype", "reshape"))):
+        return False
+    subject = call.args[0] if (is_np and call.args) else (call.func.value if isinstance(call.func, ast.Attribute) else None)
+    if subject is None:
+        return False
+    if params is None:
+        fn = call
+        while fn is not None and not isinstance(fn, (ast.FunctionDef, ast.AsyncFunctionDef)):
+            fn = getattr(fn, "_parent", None)
+        params = {a.arg for a in fn.args.posonlyargs + fn.args.args + fn.args.kwonlyargs} | ({fn.args.vararg.arg} if fn is not None and fn.args.vararg else set()) \
+            if fn is not None else set()
+    e = subject
+    while True:
+        if isinstance(e, ast.Subscript):
+            e = e.value
+        elif isinstance(e, ast.Call) and isinstance(e.func, ast.Attribute) and e.func.attr in ("get", "pop"):
+            e = e.func.value
+        else:
+            break
+    return isinstance(e, ast.Name) and e.id in params
 
 
 def op_instance_call(run, fi: FunctionInfo, call: ast.Call) -> bool:
